@@ -68,6 +68,13 @@ func c18Units(tier string) []*Unit {
 		{Name: "b", IgnoreError: true, Cmds: []C{CallS("s", "=")}},
 		{Name: "s", Run: "once", Cmds: []C{F()}},
 	}}, vlab.Options{})
+	// names resolved through wildcards and aliases concurrently
+	add("wildcard-and-alias-resolution-parallel", &Prog{Tasks: []*T{
+		{Name: "root", Deps: []Ref{{Task: "w-*", As: "w-1"}, {Task: "w-*", As: "w-2"}, {Task: "al", As: "alias1"}, {Task: "v-*-x", As: "v-9-x"}}},
+		{Name: "w-*", Cmds: []C{P()}},
+		{Name: "v-*-x", Cmds: []C{P()}},
+		{Name: "al", Aliases: []string{"alias1"}, Cmds: []C{P()}},
+	}}, vlab.Options{})
 	// parallel for-loop over deps with a matrix whose rows are references
 	add("matrix-ref-parallel-deps", &Prog{Tasks: []*T{
 		{Name: "root", Deps: []Ref{
